@@ -114,13 +114,14 @@ type world = {
   mutable last_pdu : n list;
   mutable last_ctx : ctxfrag option;
   mutable fresh : bool;
+  mutable frame : int list;
   mutable dec : dstate option;
   mutable mgr : n -> mand;
   mutable nprov : int;
   mutable owned : sbuf list;
   mutable held : (dctx * sbuf) option;
 }
-let new_world () = { enc = enc_new; last_pkt = []; last_pdu = []; last_ctx = None; fresh = false; dec = None;
+let new_world () = { enc = enc_new; last_pkt = []; last_pdu = []; last_ctx = None; fresh = false; frame = []; dec = None;
                      mgr = mgr_simple; nprov = 0; owned = []; held = None }
 
 let enc_state_str (s : enc_state) : string =
@@ -327,6 +328,27 @@ let apply (w : world) (line : string) : string =
     if op = "DECAPN" then w.fresh <- false;
     let bytes = if op = "DECAP" then bytes_tok t.(1) else w.last_pkt @ bytes_tok t.(1) in
     dec_result w (decap_m default_crc w.mgr (getdec w) (nbytes bytes))
+  | "FCLEARFRESH" -> w.fresh <- false; "ok"
+  | "FCLEAR" -> w.frame <- []; "ok"
+  | "FPUSH" ->
+    if not w.fresh then "nopkt" else begin
+      w.fresh <- false; w.frame <- w.frame @ w.last_pkt; Printf.sprintf "ok %d" (List.length w.frame) end
+  | "FPAD" -> w.frame <- w.frame @ List.init (ios t.(1)) (fun _ -> 0); Printf.sprintf "ok %d" (List.length w.frame)
+  | "FRAW" -> w.frame <- w.frame @ bytes_tok t.(1); Printf.sprintf "ok %d" (List.length w.frame)
+  | "FWALK" ->
+    let total = List.length w.frame in
+    let rec go rest off steps acc =
+      if rest = [] || steps >= 300 then (off, List.rev acc) else begin
+        let s = dec_result w (decap_m default_crc w.mgr (getdec w) (nbytes rest)) in
+        let c = (try
+                   let i = Str.search_backward (Str.regexp_string "consumed=") s (String.length s - 1) in
+                   int_of_string (String.sub s (i + 9) (String.length s - i - 9))
+                 with _ -> 0) in
+        if c = 0 then (off, List.rev (s :: acc)) else go (drop c rest) (off + c) (steps + 1) (s :: acc)
+      end in
+    let off, out = go w.frame 0 0 [] in
+    ignore total;
+    Printf.sprintf "walk %d | %s" off (String.concat " | " out)
   | "PEEK" | "PEEKL" ->
     let bytes = if op = "PEEK" then bytes_tok t.(1) else w.last_pkt @ bytes_tok t.(1) in
     (match peek (nbytes bytes) with
